@@ -30,6 +30,10 @@ RULE = ('fault enumeration: method(5) x session state named by the request(9: '
         'before the body was read) x method x state; plus '
         'the same requests / calls issued at seeded points of generated '
         'session histories under random schedules. '
+        'plus a pre-emptive tier: 2..4 requests / API calls naming one session '
+        'issued at one instant on the OS-thread backend with seeded line-level '
+        'pre-emption inside the server functions, each alarm re-run '
+        'cooperatively as a control. '
         'thorough = all cells; quick = seeded sample + all API cells. '
         'distinct = distinct cells; each evaluates completion, status and '
         'gateway-protocol oracles')
@@ -40,7 +44,8 @@ ASSUMPTIONS = ['a long-poll may legitimately take ping_interval+ping_timeout; '
                'oracle (statement: non-upgrade requests)']
 REQUIRED = ['request_completion', 'status_set', 'gateway_protocol',
             'api_completion', 'background_exceptions', 'wsgi_validator',
-            'history_probes', 'odd_requests']
+            'history_probes', 'odd_requests', 'preempt_scenarios',
+            'preemptions']
 SHARD_TIMEOUT = {'quick': 500, 'thorough': 3400}
 
 METHODS = ['GET', 'POST', 'OPTIONS', 'PUT', 'DELETE']
@@ -475,8 +480,95 @@ def run_hist(rec, case):
         sim.teardown()
 
 
+RACERS = ['close-post', 'send', 'poll', 'disconnect-sid', 'msg-post',
+          'send2']
+
+
+def _preempt_scenario(case, p):
+    """One session, several requests / API calls naming it issued at the same
+    virtual instant on the OS-thread backend; line-level pre-emption with
+    probability p inside the server's functions (p=0: cooperative control
+    run). -> (list of (who, exception type, raise site), counters)"""
+    from vf import hist, preempt
+    seed = case['sched']
+    sim = scen.make_sim('T', server_kwargs={
+        'ping_interval': 4, 'ping_timeout': 2}, policy='random', seed=seed,
+        yield_prob=0.2, backend='thread')
+    R = hist.Runner(sim)
+    preempt.install(sim.sched, seed, p=p)
+    out = []
+    try:
+        s = R.open('polling', autopoll=(case['state'] != 'nopoll'),
+                   autopong=0)
+        if case['state'] == 'closed':
+            sim.post(s.h, '1')
+        sim.advance(1)
+        for r in case['racers']:
+            if r == 'close-post':
+                sim.post(s.h, '1')
+            elif r == 'msg-post':
+                sim.post(s.h, '4hello')
+            elif r == 'poll':
+                sim.poll(s.h)
+            elif r in ('send', 'send2'):
+                sim.app_call('send', s.sid, r)
+            elif r == 'disconnect-sid':
+                sim.app_call('disconnect', s.sid)
+        sim.quiesce()
+        ev, pre = preempt.uninstall()
+        for tk in sim.tickets:
+            if tk.exc is not None:
+                tb = (getattr(tk, 'exc_tb', '') or '').strip().splitlines()
+                site = ''
+                for line in tb:
+                    if 'engineio/' in line and ', in ' in line:
+                        site = line.strip().split(', in ')[-1]
+                out.append((tk.kind + ':' + str(tk.info.get(
+                    'method', tk.info.get('call'))),
+                    type(tk.exc).__name__, site))
+            elif tk.kind == 'request' and tk.done and tk.proto:
+                out.append(('request', 'gateway-protocol', tk.proto[0]))
+        for n, e, tb in sim.sched.escaped:
+            if not n.startswith('req-') and not n.startswith('app-'):
+                out.append(('background:' + n, e, ''))
+        return out, (ev, pre)
+    finally:
+        preempt.uninstall()
+        sim.teardown()
+
+
+def run_preempt(rec, case):
+    """Pre-emptive tier (models async_mode='threading'): any exception that
+    escapes a request or API call is a violation; if the very same scenario
+    and schedule seed run WITHOUT line-level pre-emption shows none, it exists
+    only between two source lines of the unsynchronised session-table /
+    closed-flag code: known finding table-race-preemption."""
+    rec.evaluations += 1
+    rec.count('preempt_scenarios')
+    rec.key('preempt/%s/%s' % (case['state'], '+'.join(case['racers'])))
+    bad, (ev, pre) = _preempt_scenario(case, case.get('p', 0.3))
+    rec.count('preempt_line_events', ev)
+    rec.count('preemptions', pre)
+    if not bad:
+        return
+    control, _ = _preempt_scenario(case, 0.0)
+    rec.count('preempt_control_runs')
+    for who, exc, site in bad:
+        only_preempt = not any(c[1] == exc for c in control)
+        key = 'table-race-preemption' if only_preempt and exc in (
+            'KeyError', 'SocketIsClosedError') else \
+            'preempt-raises-%s' % exc
+        rec.viol(key, '%s raised %s (raise site: %s) with requests / calls '
+                 '%r racing on one session (state %s); cooperative control '
+                 'run of the same scenario and seed: %r' % (
+                     who, exc, site, case['racers'], case['state'], control),
+                 case)
+
+
 def dispatch(rec, case):
-    if 'api' in case:
+    if case.get('preempt'):
+        run_preempt(rec, case)
+    elif 'api' in case:
         run_api(rec, case)
     elif 'odd' in case:
         run_odd(rec, case)
@@ -511,8 +603,19 @@ def plan(tier, seed):
         cases.append({'seed': seed, 'i': k})
     rng.shuffle(cases)
     n = 16
-    return [{'cases': cases[i::n], 'all': tier == 'thorough'}
-            for i in range(n)]
+    shards = [{'cases': cases[i::n], 'all': tier == 'thorough'}
+              for i in range(n)]
+    # pre-emptive tier (OS-thread backend, line-level pre-emption)
+    pre = []
+    for k in range(2500 if tier == 'thorough' else 120):
+        racers = rng.sample(RACERS, rng.randint(2, 4))
+        pre.append({'preempt': True, 'sched': seed * 100000 + k + 1,
+                    'state': rng.choice(['poll', 'poll', 'nopoll', 'closed']),
+                    'racers': racers})
+    k = 8 if tier == 'thorough' else 2
+    for i in range(k):
+        shards.append({'cases': pre[i::k]})
+    return shards
 
 
 def run_shard(spec):
